@@ -228,7 +228,7 @@ def finish(ctx, res, meta):
         "known_findings_reported": [k for k, _ in kf],
         "tree_hash": ctx.tree_hash(),
     }
-    cov.update(res.extra)
+    cov.update({k: (sorted(v) if isinstance(v, set) else v) for k, v in res.extra.items()})
     ev = {
         "property_id": pid,
         "tier": ctx.tier if ctx.tier in ("quick", "thorough") else "quick",
